@@ -11,7 +11,8 @@ import (
 // the bounds of all FOR counts it is nested in (EQU values are bounded only to
 // bound those counts). It is computed with an own, deliberately crude tokenizer; when in
 // doubt it over-estimates (math.Inf for anything it cannot bound).
-func EstimateExpansion(text string) float64 {
+func EstimateExpansion(text string, cfg Config) float64 {
+	consts := map[string]float64{"CORESIZE": float64(cfg.CoreSize), "MAXLENGTH": float64(cfg.Length), "MAXPROCESSES": float64(cfg.Processes), "MINDISTANCE": float64(cfg.Distance)}
 	type line struct{ toks []string }
 	var lines []line
 	for _, raw := range strings.FieldsFunc(text, func(r rune) bool { return r == '\n' }) {
@@ -48,6 +49,9 @@ func EstimateExpansion(text string) float64 {
 		}
 		body, ok := equ[id]
 		if !ok {
+			if v, isConst := consts[id]; isConst {
+				return v // predefined constants may appear in FOR counts
+			}
 			return unknown
 		}
 		if stack[id] {
